@@ -272,8 +272,8 @@ func (g *gen) nextOp() (op, bool) {
 	} else {
 		tbl = []weighted{
 			{5, g.opAppend}, {5, g.opInsert}, {3, g.opRemove}, {1, g.opRemoveAll}, {3, g.opShift}, {1, g.opCompact},
-			{2, g.opResize}, {6, g.opSetType}, {2, g.opSetEnum}, {4, g.opAddValue}, {1, g.opRemoveValue}, {1, g.opSetMinSize},
-			{3, g.opUpdateIndex}, {30, g.opMuxInsert}, {7, g.opMuxRemove}, {5, g.opMuxClearGroup}, {1, g.opMuxClearAll},
+			{2, g.opResize}, {6, g.opSetType}, {4, g.opSetEnum}, {5, g.opAddValue}, {1, g.opRemoveValue}, {1, g.opSetMinSize},
+			{4, g.opUpdateIndex}, {30, g.opMuxInsert}, {7, g.opMuxRemove}, {5, g.opMuxClearGroup}, {1, g.opMuxClearAll},
 			{9, g.opMuxShift}, {3, g.opNew}, {5, g.opRename},
 		}
 	}
@@ -551,6 +551,10 @@ func (g *gen) opSetEnum() (op, bool) {
 		return op{}, false
 	}
 	x := g.r.pick(l)
+	// multiplexed enum signals first
+	if inMux := g.sigsWhere(func(h int) bool { return g.kind(h) == acmelib.SignalKindEnum && g.sn().sigs[h].pu >= 0 }); len(inMux) > 0 && g.r.chance(60) {
+		x = g.r.pick(inMux)
+	}
 	return op{k: "setenum", a: x, b: g.r.below(len(g.sn().enums))}, true
 }
 
